@@ -1,1 +1,79 @@
-Require Import JF.Model.Stale.
+(** * Props/C08.v — A committed event was computed from the trajectory that is still current.
+
+    Model: [JF.Model.Stale] on top of [JF.Model.Kinematics]: for every pending event handler the
+    in-state from which its candidate time was computed is remembered (registered when the handler is
+    started, dropped when it is trashed).
+    Tie to the code: harness/c08.py evaluates [check_stcase] inside Coq on traced real runs; the
+    in-states are recorded exactly as extracted from the global state, before the handler touches them. *)
+From Coq Require Import ZArith QArith List Bool.
+Require Import JF.Base.F64 JF.Model.Kinematics JF.Model.Stale JF.Proofs.StaleProofs.
+Import ListNotations.
+
+(** Facts of one accepted leg: it is a C07 leg; NOT STALE — the in-state registered for the committing
+    interaction / cell-veto handler agrees (same velocity bits, same line) with the global state right
+    before its commit; SURVIVORS UNDISTURBED — every interaction / cell-veto event still pending after
+    the commit sees all its units on an unchanged trajectory in the new global state, i.e. no candidate
+    survives in the scheduler after another event changed the motion of a unit it depends on. *)
+Theorem not_stale_leg :
+  forall Ls fh n s ins l s' ins', sleg_ok Ls fh n s ins l = Some (s', ins') ->
+  exists T, sleg_facts Ls fh n s s' ins ins' l T.
+Proof. exact sleg_ok_facts. Qed.
+Print Assumptions not_stale_leg.
+
+(** Runs of any length accepted by the checker have these facts at every leg. *)
+Theorem not_stale :
+  forall c : stcase, check_stcase c = true ->
+  exists r, run_facts (map f2q (st_L c)) (st_factor_handlers c) 0
+              {| s_units := st_init c; s_now := 0; s_pending := []; s_started := false; s_speed2 := None |}
+              [] (st_legs c) r.
+Proof. exact accepted_run_stale. Qed.
+Print Assumptions not_stale.
+
+(** The in-state compared at the commit is the one registered when the candidate was computed,
+    however many legs ago: registrations persist unchanged while the handler is neither trashed nor
+    started again. *)
+Theorem instate_is_the_one_registered :
+  forall Ls fh ls n s ins r h ius,
+  run_facts Ls fh n s ins ls r ->
+  lookup_h ins h = Some ius ->
+  Forall (fun l => ~ In h (map fst (sl_instates l)) /\ existsb (Nat.eqb h) (k_trash (sl_k l)) = false) ls ->
+  forall i si, nth_error r i = Some si -> lookup_h (snd si) h = Some ius.
+Proof. exact instate_persists. Qed.
+Print Assumptions instate_is_the_one_registered.
+
+Theorem registered_when_started :
+  forall new ins h x, NoDup (map fst new) -> In (h, x) new -> lookup_h (add_all ins new) h = Some x.
+Proof. intros; eapply lookup_add_all_in; eauto. Qed.
+Theorem dropped_when_trashed :
+  forall hs ins h, lookup_h (remove_all ins hs) h = if existsb (Nat.eqb h) hs then None else lookup_h ins h.
+Proof. exact lookup_remove_all. Qed.
+Print Assumptions dropped_when_trashed.
+
+(** Meaning of "agrees": for every unit of the in-state the global state holds a unit with the same
+    identifier, the same velocity bit for bit (same position bit for bit if it does not move). *)
+Theorem current_means_same_motion :
+  forall Ls T st ius, instate_current Ls T st ius = true ->
+  forall iu, In iu ius -> exists gu, lookup st (u_id iu) = Some gu /\ same_line Ls T gu iu = true /\
+    match u_vel gu, u_vel iu with
+    | None, None => vel_eqb (u_pos gu) (u_pos iu) = true
+    | Some a, Some b => vel_eqb a b = true
+    | _, _ => False
+    end.
+Proof.
+  intros Ls T st ius H iu Hin. destruct (instate_current_spec _ _ _ _ H iu Hin) as [gu [Hl Hs]].
+  exists gu. repeat split; auto. apply (same_line_velocity _ _ _ _ Hs).
+Qed.
+Print Assumptions current_means_same_motion.
+
+(** Non-vacuity: same-line accepts a time-sliced copy and rejects a changed velocity. *)
+Definition bq (z : Z) := of_bits z.
+Definition u_a := {| u_id := [0%nat]; u_pos := [bq 4598175219545276416]; u_vel := Some [bq 4607182418800017408];
+                     u_ts := Some (bq 0, bq 0); u_charge := [] |}.                    (* x=0.25 v=1 t=0 *)
+Definition u_b := {| u_id := [0%nat]; u_pos := [bq 4602678819172646912]; u_vel := Some [bq 4607182418800017408];
+                     u_ts := Some (bq 0, bq 4598175219545276416); u_charge := [] |}.  (* x=0.5 v=1 t=0.25 *)
+Definition u_c := {| u_id := [0%nat]; u_pos := [bq 4602678819172646912]; u_vel := Some [bq 4602678819172646912];
+                     u_ts := Some (bq 0, bq 4598175219545276416); u_charge := [] |}.  (* v=0.5 *)
+Example ex_same_line : same_line [1%Q] (1 # 2) u_b u_a = true.
+Proof. vm_compute. reflexivity. Qed.
+Example ex_changed_velocity : same_line [1%Q] (1 # 2) u_c u_a = false.
+Proof. vm_compute. reflexivity. Qed.
